@@ -1,4 +1,5 @@
 import ComposeVerif.Lemmas.TravInvS
+import ComposeVerif.Lemmas.DepGraph
 /-!
 # C13 — statements the unchanged tree falsifies (concrete witnesses)
 
@@ -44,3 +45,30 @@ theorem bounded_full_false :
     omega
 
 end CV.Trav
+
+/-! ### graph construction (`newGraph`): the project is modified, and a cyclic project can be accepted
+
+DESIGN §10 #5, replayed on the real code by `corpus/C13/self-dependency-optional-missing*.json`
+(oracle keys `project-modified:self-dependency+optional-missing-dependency`,
+`cycle-accepted:self-dependency+optional-missing-dependency`). -/
+namespace CV.DepGraph
+
+/-- service 0 depends (optionally) on 9, which is not a service, and on itself; the optional entry is iterated first -/
+def quirkFirst : Proj := ⟨[⟨0, [⟨9, false⟩, ⟨0, true⟩]⟩], []⟩
+/-- the same map iterated in the other order -/
+def quirkLast : Proj := ⟨[⟨0, [⟨0, true⟩, ⟨9, false⟩]⟩], []⟩
+
+/-- "the project is not modified" is false: in both orders the caller's `depends_on` of service 0 loses an entry -/
+theorem project_unmodified_false : ¬ ∀ p : Proj, (run p).changed = [] := by
+  intro h
+  have := h quirkFirst
+  revert this
+  decide
+
+theorem project_modified_both_orders : (run quirkFirst).changed = [0] ∧ (run quirkLast).changed = [0] := by decide
+
+/-- "a cyclic graph is refused" is false: service 0 depends on itself, yet the outcome is `ok` when the optional
+missing dependency is iterated first (and `cycle` in the other order: the answer depends on Go's map order) -/
+theorem cyclic_refused_false : (run quirkFirst).cls = "ok" ∧ (run quirkLast).cls = "cycle" := by decide
+
+end CV.DepGraph
